@@ -394,6 +394,112 @@ theorem refTy_map (k e : Ty) (hk : (typeRef env k).isSome = true) (he : (typeRef
 
 variable (ds : List Decl)
 
+theorem encodeListW_mem (n : Nat) (e : Ty) : ∀ (es : List GoVal) (x : JVal), x ∈ encodeListW env w n e es →
+    ∃ v ∈ es, x = encode env w n true e v
+  | [], x, h => by simp [encodeListW] at h
+  | v :: vs, x, h => by
+    simp only [encodeListW, List.mem_cons] at h
+    rcases h with rfl | h
+    · exact ⟨v, by simp, rfl⟩
+    · obtain ⟨v', hv', rfl⟩ := encodeListW_mem n e vs x h
+      exact ⟨v', by simp [hv'], rfl⟩
+
+theorem encodeEntriesW_mem (n : Nat) (e : Ty) : ∀ (kvs : List (GoVal × GoVal)) (p : String × JVal),
+    p ∈ encodeEntries env w n true e kvs → ∃ kv ∈ kvs, p = (keyString kv.1, encode env w n true e kv.2)
+  | [], p, h => by simp [encodeEntries] at h
+  | (k, v) :: rest, p, h => by
+    simp only [encodeEntries, List.mem_cons] at h
+    rcases h with rfl | h
+    · exact ⟨(k, v), by simp, rfl⟩
+    · obtain ⟨kv, hkv, rfl⟩ := encodeEntriesW_mem n e rest p h
+      exact ⟨kv, by simp [hkv], rfl⟩
+
+/-! typing is monotone in the fuel (the generated methods of a named container encode the elements
+one level of fuel higher than the typing looks at them) -/
+
+theorem hasTypeAll_mono (n : Nat) (ih : ∀ t v, hasType env n t v = true → hasType env (n + 1) t v = true) (e : Ty) :
+    ∀ es, hasTypeAll env n e es = true → hasTypeAll env (n + 1) e es = true
+  | [], _ => by simp [hasTypeAll]
+  | x :: xs, h => by
+    simp only [hasTypeAll, Bool.and_eq_true] at h ⊢
+    exact ⟨ih e x h.1, hasTypeAll_mono n ih e xs h.2⟩
+
+theorem hasTypeEntries_mono (n : Nat) (ih : ∀ t v, hasType env n t v = true → hasType env (n + 1) t v = true) (k e : Ty) :
+    ∀ kvs, hasTypeEntries env n k e kvs = true → hasTypeEntries env (n + 1) k e kvs = true
+  | [], _ => by simp [hasTypeEntries]
+  | (key, x) :: xs, h => by
+    simp only [hasTypeEntries, Bool.and_eq_true] at h ⊢
+    exact ⟨⟨h.1.1, ih e x h.1.2⟩, hasTypeEntries_mono n ih k e xs h.2⟩
+
+theorem hasTypeFields_mono (n : Nat) (ih : ∀ t v, hasType env n t v = true → hasType env (n + 1) t v = true)
+    (vals : List (String × GoVal)) :
+    ∀ fs, hasTypeFields env n fs vals = true → hasTypeFields env (n + 1) fs vals = true
+  | [], _ => by simp [hasTypeFields]
+  | f :: fs, h => by
+    simp only [hasTypeFields, Bool.and_eq_true] at h ⊢
+    refine ⟨?_, hasTypeFields_mono n ih vals fs h.2⟩
+    have h1 := h.1
+    cases hk : Tags.goJsonKey f.tag f.name f.goExported with
+    | none => simp
+    | some key =>
+      simp only [hk] at h1 ⊢
+      cases hv : vals.lookup f.name with
+      | none => simp [hv] at h1
+      | some v =>
+        simp only [hv, Bool.or_eq_true] at h1 ⊢
+        rcases h1 with h1 | h1
+        · exact Or.inl h1
+        · exact Or.inr (ih f.ty v h1)
+
+theorem hasType_mono : ∀ (n : Nat) (t : Ty) (v : GoVal), hasType env n t v = true → hasType env (n + 1) t v = true
+  | 0, _, _, h => by simp [hasType] at h
+  | n + 1, t, v, h => by
+    have ih := hasType_mono n
+    cases t with
+    | basic g bk => cases bk <;> cases v <;> simp [hasType] at h ⊢
+    | time d => cases v <;> simp [hasType] at h ⊢
+    | arr k e =>
+      cases v with
+      | list s nl es =>
+        simp only [hasType, Bool.and_eq_true] at h ⊢
+        exact ⟨h.1, hasTypeAll_mono env n ih e es h.2⟩
+      | _ => simp [hasType] at h
+    | map k e =>
+      cases v with
+      | map nl kvs =>
+        simp only [hasType] at h ⊢
+        exact hasTypeEntries_mono env n ih k e kvs h
+      | _ => simp [hasType] at h
+    | ptr e => simp [hasType] at h
+    | ref q =>
+      cases hf : env.find? q with
+      | none => simp [hasType, hf] at h
+      | some d =>
+        cases hb : d.body with
+        | named u =>
+          have h' : hasType env n u v = true := by simpa [hasType, hf, hb] using h
+          simpa [hasType, hf, hb] using ih u v h'
+        | enum un bk ms io =>
+          have h' := h
+          simp only [hasType, hf, hb] at h' ⊢
+          exact h'
+        | struct fs cs impls =>
+          cases v with
+          | struct vals =>
+            have h' : hasTypeFields env n fs vals = true := by simpa [hasType, hf, hb] using h
+            simpa [hasType, hf, hb] using hasTypeFields_mono env n ih vals fs h'
+          | _ => simp [hasType, hf, hb] at h
+        | union ms =>
+          cases v with
+          | iface mem =>
+            cases mem with
+            | none => simp [hasType, hf, hb] at h
+            | some nv =>
+              obtain ⟨name, mv⟩ := nv
+              simp only [hasType, hf, hb, Bool.and_eq_true] at h ⊢
+              exact ⟨h.1, ih _ mv h.2⟩
+          | _ => simp [hasType, hf, hb] at h
+
 /-- the statement at fuel `n` -/
 def Goal (n : Nat) : Prop :=
   ∀ t v, TyIn ds t → Prov tenv env t → noUnion env t = true → shapeOk t = true → hasType env n t v = true →
@@ -541,58 +647,6 @@ theorem prov_child (hprov : ∀ p ∈ needed env d, tenv.lookup p.1 = some p.2) 
   simp only [tsEnvOf, List.mem_flatMap] at hp ⊢
   obtain ⟨x, hx, hpx⟩ := hp
   exact ⟨x, ⟨t, ht, hx⟩, hpx⟩
-
-theorem goal_named (F : Fragment env w tenv ds) (n : Nat) (hg : Goal tenv env w ds n)
-    (q : String) (d : Decl) (u : Ty) (v : GoVal) (hd : d ∈ ds) (hq : d.q = q) (hb : d.body = .named u)
-    (ht : hasType env (n + 1) (.ref q) v = true) :
-    Inh tenv (refTy env (.ref q)) (encode env w (n + 1) false (.ref q) v) := by
-  have hfind : env.find? q = some d := by rw [← hq]; exact F.found d hd
-  have hok := F.ok d hd
-  simp only [declOk, hb, Bool.and_eq_true] at hok
-  obtain ⟨⟨hsu, hnu⟩, hname⟩ := hok
-  have hprov : ∀ p ∈ needed env d, tenv.lookup p.1 = some p.2 :=
-    fun p hp => lookup_of_lookupIs tenv p.1 p.2 (F.provided d hd p hp)
-  have hrt : refTy env (.ref q) = .ref d.name := by simp [refTy, typeRef, hfind, hb]
-  have henc : encode env w (n + 1) false (.ref q) v = encode env w n false u v := by
-    simp [encode, hfind, hb, F.nameds]
-  have hty : hasType env n u v = true := by simpa [hasType, hfind, hb] using ht
-  rw [hrt, henc]
-  -- the alias of the named type
-  by_cases hint : ∃ g, u = .basic g .int
-  · obtain ⟨g, rfl⟩ := hint
-    have hl : tenv.lookup d.name = some (.brand .num d.name) :=
-      hprov (d.name, .brand .num d.name) (mem_needed_own env d _ (by simp [declOfNamed, hb, tsEnvOf]))
-    cases n with
-    | zero => simp [hasType] at hty
-    | succ n' =>
-      cases v <;> simp [hasType] at hty
-      simp only [encode]
-      exact inh_ref tenv _ _ _ hl (inh_brand tenv _ _ _ (inh_num tenv _))
-  · have hne : (d.name == refName env u) = false := by
-      cases u with
-      | basic g bk => cases bk <;> simp_all
-      | _ => simpa using hname
-    have hl : tenv.lookup d.name = some (refTy env u) := by
-      apply hprov (d.name, refTy env u)
-      apply mem_needed_own
-      cases u with
-      | basic g bk =>
-        cases bk with
-        | int => exact absurd ⟨g, rfl⟩ hint
-        | _ => simp [declOfNamed, hb, hne, tsEnvOf]
-      | _ => simp [declOfNamed, hb, hne, tsEnvOf]
-    have hchild : u ∈ childTys d := by
-      cases u with
-      | basic g bk =>
-        cases bk with
-        | int => exact absurd ⟨g, rfl⟩ hint
-        | _ => simp [childTys, hb]
-      | _ => simp [childTys, hb]
-    have hin : TyIn ds u := by
-      intro r hr
-      exact F.closed d hd r (List.mem_flatMap.mpr ⟨u, hchild, hr⟩)
-    exact inh_ref tenv _ _ _ hl (hg u v hin (prov_child tenv env hprov u hchild) hnu hsu hty)
-
 
 theorem goal_enum (F : Fragment env w tenv ds) (n : Nat)
     (q : String) (d : Decl) (un : String) (bk : BKind) (ms : List Member) (io : Bool) (v : GoVal)
@@ -900,6 +954,183 @@ theorem goal_union_wrapped (F : Fragment env w tenv ds) (n : Nat) (hg : ∀ k, k
 
 def fieldTs (f : Field) : TsType := if Tags.opaqueFor f.tag "typescript" then TsType.unknown else refTy env f.ty
 
+theorem goal_named (F : Fragment env w tenv ds) (n : Nat) (hg : ∀ k, k ≤ n → Goal tenv env w ds k)
+    (q : String) (d : Decl) (u : Ty) (v : GoVal) (hd : d ∈ ds) (hq : d.q = q) (hb : d.body = .named u)
+    (ht : hasType env (n + 1) (.ref q) v = true) :
+    Inh tenv (refTy env (.ref q)) (encode env w (n + 1) false (.ref q) v) := by
+  have hfind : env.find? q = some d := by rw [← hq]; exact F.found d hd
+  have hok := F.ok d hd
+  have hprov : ∀ p ∈ needed env d, tenv.lookup p.1 = some p.2 :=
+    fun p hp => lookup_of_lookupIs tenv p.1 p.2 (F.provided d hd p hp)
+  have hrt : refTy env (.ref q) = .ref d.name := by simp [refTy, typeRef, hfind, hb]
+  have hty : hasType env n u v = true := by simpa [hasType, hfind, hb] using ht
+  rw [hrt]
+  by_cases hw : w.nameds.contains q = true
+  · -- a wrapped named slice / map of unions
+    have hw2 : q ∈ w.nameds := by simpa using hw
+    simp only [declOk, hb, hq, hw, if_true, Bool.and_eq_true] at hok
+    obtain ⟨hshape, hname⟩ := hok
+    have hchildren : ∀ r ∈ u.refs, ∃ d' ∈ ds, d'.q = r := by
+      intro r hr
+      have hchild : u ∈ childTys d := by
+        cases u with
+        | basic g bk => simp at hshape
+        | _ => simp [childTys, hb]
+      exact F.closed d hd r (List.mem_flatMap.mpr ⟨u, hchild, hr⟩)
+    have hl : tenv.lookup d.name = some (refTy env u) := by
+      have hne : (d.name == refName env u) = false := by
+        cases u with
+        | basic g bk => simp at hshape
+        | _ => simpa using hname
+      apply hprov (d.name, refTy env u)
+      apply mem_needed_own
+      cases u with
+      | basic g bk => simp at hshape
+      | _ => simp [declOfNamed, hb, hne, tsEnvOf]
+    cases n with
+    | zero => simp [hasType] at hty
+    | succ m =>
+      cases u with
+      | arr k e =>
+        cases e with
+        | ref uq =>
+          simp only [Bool.and_eq_true, decide_eq_true_eq] at hshape
+          obtain ⟨hk, hun⟩ := hshape
+          subst hk
+          obtain ⟨ud, hud, hudq⟩ := hchildren uq (by simp [Ty.refs])
+          have hfu : env.find? uq = some ud := by rw [← hudq]; exact F.found ud hud
+          simp only [isUnionTy, hfu] at hun
+          have hsomee : (typeRef env (.ref uq)).isSome = true := by
+            simp only [typeRef, hfu]
+            cases ud.body <;> simp
+          cases hub : ud.body with
+          | union ms =>
+            cases v with
+            | list isSlice isNil es =>
+              simp only [hasType, Bool.and_eq_true] at hty
+              have hall : hasTypeAll env (m + 1) (.ref uq) es = true :=
+                hasTypeAll_mono env m (hasType_mono env m) (.ref uq) es hty.2
+              have helems : ∀ x ∈ encodeListW env w (m + 1) (.ref uq) es, Inh tenv (refTy env (.ref uq)) x := by
+                intro x hx
+                obtain ⟨v', hv', rfl⟩ := encodeListW_mem env w (m + 1) (.ref uq) es x hx
+                exact goal_union_wrapped tenv env w ds F (m + 1) hg uq ud ms v' hud hudq hub
+                  (hasTypeAll_mem env (m + 1) (.ref uq) es hall v' hv')
+              refine inh_ref tenv _ _ _ hl ?_
+              rw [refTy_arr_neg env (-1) (.ref uq) (by omega) hsomee]
+              by_cases hnil : (isSlice && isNil) = true
+              · have henc : encode env w (m + 1 + 1) false (.ref q) (.list isSlice isNil es) = .arr [] := by
+                  simp [encode, hfind, hb, hw2, hnil]
+                rw [henc]
+                exact inh_union tenv _ (.arr (refTy env (.ref uq))) _ (by simp) (inh_arr tenv _ _ (by simp))
+              · have hnil' : (isSlice && isNil) = false := by simpa using hnil
+                have henc : encode env w (m + 1 + 1) false (.ref q) (.list isSlice isNil es) =
+                    .arr (encodeListW env w (m + 1) (.ref uq) es) := by
+                  simp [encode, hfind, hb, hw2, hnil']
+                rw [henc]
+                exact inh_union tenv _ (.arr (refTy env (.ref uq))) _ (by simp) (inh_arr tenv _ _ helems)
+            | _ => simp [hasType] at hty
+          | _ => simp [hub] at hun
+        | _ => simp at hshape
+      | map k e =>
+        cases e with
+        | ref uq =>
+          simp only [Bool.and_eq_true] at hshape
+          obtain ⟨hkey, hun⟩ := hshape
+          obtain ⟨ud, hud, hudq⟩ := hchildren uq (by simp [Ty.refs])
+          have hfu : env.find? uq = some ud := by rw [← hudq]; exact F.found ud hud
+          simp only [isUnionTy, hfu] at hun
+          have hsomee : (typeRef env (.ref uq)).isSome = true := by
+            simp only [typeRef, hfu]
+            cases ud.body <;> simp
+          have hsomek : (typeRef env k).isSome = true := by
+            cases k with
+            | basic g bk => cases bk <;> simp at hkey <;> simp [typeRef]
+            | _ => simp at hkey
+          have hpk : Prov tenv env k := by
+            have hchild : Ty.map k (.ref uq) ∈ childTys d := by simp [childTys, hb]
+            exact (prov_map tenv env k (.ref uq) (prov_child tenv env hprov _ hchild)).1
+          cases hub : ud.body with
+          | union ms =>
+            cases v with
+            | map isNil kvs =>
+              simp only [hasType] at hty
+              have hall : hasTypeEntries env (m + 1) k (.ref uq) kvs = true :=
+                hasTypeEntries_mono env m (hasType_mono env m) k (.ref uq) kvs hty
+              have henc : encode env w (m + 1 + 1) false (.ref q) (.map isNil kvs) =
+                  .obj (encodeEntries env w (m + 1) true (.ref uq) kvs) := by
+                simp [encode, hfind, hb, hw2]
+              rw [henc]
+              refine inh_ref tenv _ _ _ hl ?_
+              rw [refTy_map env k (.ref uq) hsomek hsomee]
+              refine inh_union tenv _ (.record (refTy env k) (refTy env (.ref uq))) _ (by simp) (inh_record tenv _ _ _ ?_)
+              intro p hpm
+              obtain ⟨kv, hkv, rfl⟩ := encodeEntriesW_mem env w (m + 1) (.ref uq) kvs p hpm
+              obtain ⟨hko, htyv⟩ := hasTypeEntries_mem env (m + 1) k (.ref uq) kvs hall kv hkv
+              refine ⟨?_, goal_union_wrapped tenv env w ds F (m + 1) hg uq ud ms kv.2 hud hudq hub htyv⟩
+              cases k with
+              | basic g bk =>
+                cases bk with
+                | str =>
+                  have : refTy env (.basic g .str) = .str := by simp [refTy, typeRef]
+                  rw [this]; exact keyOk_str tenv _
+                | int =>
+                  have : refTy env (.basic g .int) = .ref "Int" := by simp [refTy, typeRef]
+                  rw [this]
+                  cases hk1 : kv.1 with
+                  | int r =>
+                    rw [hk1] at hko
+                    simp only [keyOk] at hko
+                    exact keyOk_int tenv _ (prov_int tenv env g hpk) (by simpa [keyString] using hko)
+                  | _ => rw [hk1] at hko; simp [keyOk] at hko
+                | _ => simp at hkey
+              | _ => simp at hkey
+            | _ => simp [hasType] at hty
+          | _ => simp [hub] at hun
+        | _ => simp at hshape
+      | _ => simp at hshape
+  · have hw' : w.nameds.contains q = false := by simpa using hw
+    have hw2 : q ∉ w.nameds := by simpa using hw
+    simp only [declOk, hb, hq, hw', Bool.false_eq_true, if_false, Bool.and_eq_true] at hok
+    obtain ⟨⟨hsu, hnu⟩, hname⟩ := hok
+    have henc : encode env w (n + 1) false (.ref q) v = encode env w n false u v := by
+      simp [encode, hfind, hb, hw2]
+    rw [henc]
+    -- the alias of the named type
+    by_cases hint : ∃ g, u = .basic g .int
+    · obtain ⟨g, rfl⟩ := hint
+      have hl : tenv.lookup d.name = some (.brand .num d.name) :=
+        hprov (d.name, .brand .num d.name) (mem_needed_own env d _ (by simp [declOfNamed, hb, tsEnvOf]))
+      cases n with
+      | zero => simp [hasType] at hty
+      | succ n' =>
+        cases v <;> simp [hasType] at hty
+        simp only [encode]
+        exact inh_ref tenv _ _ _ hl (inh_brand tenv _ _ _ (inh_num tenv _))
+    · have hne : (d.name == refName env u) = false := by
+        cases u with
+        | basic g bk => cases bk <;> simp_all
+        | _ => simpa using hname
+      have hl : tenv.lookup d.name = some (refTy env u) := by
+        apply hprov (d.name, refTy env u)
+        apply mem_needed_own
+        cases u with
+        | basic g bk =>
+          cases bk with
+          | int => exact absurd ⟨g, rfl⟩ hint
+          | _ => simp [declOfNamed, hb, hne, tsEnvOf]
+        | _ => simp [declOfNamed, hb, hne, tsEnvOf]
+      have hchild : u ∈ childTys d := by
+        cases u with
+        | basic g bk =>
+          cases bk with
+          | int => exact absurd ⟨g, rfl⟩ hint
+          | _ => simp [childTys, hb]
+        | _ => simp [childTys, hb]
+      have hin : TyIn ds u := by
+        intro r hr
+        exact F.closed d hd r (List.mem_flatMap.mpr ⟨u, hchild, hr⟩)
+      exact inh_ref tenv _ _ _ hl (hg n (Nat.le_refl n) u v hin (prov_child tenv env hprov u hchild) hnu hsu hty)
+
 theorem goal_struct (F : Fragment env w tenv ds) (n : Nat) (hg : ∀ k, k ≤ n → Goal tenv env w ds k)
     (q : String) (d : Decl) (fs : List Field) (cs : List IR.Comment) (impls : List String) (v : GoVal)
     (hd : d ∈ ds) (hq : d.q = q) (hb : d.body = .struct fs cs impls)
@@ -1009,7 +1240,7 @@ theorem C03_end_to_end (F : Fragment env w tenv ds) : ∀ n, Goal tenv env w ds 
       | ref q =>
         obtain ⟨d, hd, hq⟩ := hin q (by simp [Ty.refs])
         cases hb : d.body with
-        | named u => exact goal_named tenv env w ds F n (ih n (Nat.lt_succ_self n)) q d u v hd hq hb ht
+        | named u => exact goal_named tenv env w ds F n (fun k hk => ih k (Nat.lt_succ_of_le hk)) q d u v hd hq hb ht
         | enum un bk ms io => exact goal_enum tenv env w ds F n q d un bk ms io v hd hq hb ht
         | struct fs cs impls =>
           exact goal_struct tenv env w ds F n (fun k hk => ih k (Nat.lt_succ_of_le hk)) q d fs cs impls v hd hq hb ht
@@ -1021,9 +1252,8 @@ theorem C03_end_to_end (F : Fragment env w tenv ds) : ∀ n, Goal tenv env w ds 
 theorem fragment_of_check (h : fragmentB env w tenv ds = true) : Fragment env w tenv ds := by
   simp only [fragmentB, Bool.and_eq_true, List.all_eq_true, decide_eq_true_eq, List.any_eq_true, beq_iff_eq,
     List.isEmpty_iff] at h
-  obtain ⟨⟨⟨⟨h1, h2⟩, h3⟩, h4⟩, h5⟩ := h
+  obtain ⟨⟨⟨h2, h3⟩, h4⟩, h5⟩ := h
   exact {
-    nameds := h1
     found := h2
     closed := fun d hd q hq => by
       obtain ⟨d', hd', he⟩ := h3 d hd q hq
